@@ -99,12 +99,12 @@ class Check(CheckBase):
     def generate(self):
         quick = self.tier == 'quick'
         cases = []
-        for i in range(48 if quick else 600):
+        for i in range(48 if quick else 1500):
             cases.append({'kind': 'local', 'seed': random.Random(f'C12/{self.seed}/l/{i}').randrange(1 << 30), 'plans': 40 if quick else 80})
-        for i in range(64 if quick else 900):
+        for i in range(64 if quick else 2200):
             cases.append({'kind': ['s3', 'b2'][i % 2], 'seed': random.Random(f'C12/{self.seed}/h/{i}').randrange(1 << 30),
                           'plans': 30 if quick else 60})
-        for i in range(32 if quick else 300):
+        for i in range(32 if quick else 700):
             r = random.Random(f'C12/{self.seed}/r/{i}')
             cases.append({'kind': 'repo', 'backend': ['s3', 'b2'][i % 2], 'seed': r.randrange(1 << 30),
                           'settings': gen.gen_settings(r, chunker=(64, 1024))})
